@@ -210,6 +210,10 @@ INVALID_ICAL = [
     b"BEGIN:VCALENDAR\r\nVERSION:2.0\r\nPRODID:x\r\nBEGIN:VEVENT\r\nUID:c1\r\nSUMMARY:a\x01b\r\nEND:VEVENT\r\nEND:VCALENDAR\r\n",
     b"BEGIN:VCALENDAR\r\nVERSION:2.0\r\nPRODID:x\r\nBEGIN:VEVENT\r\nUID:c2\r\nDESCRIPTION:a\x0cb\r\nEND:VEVENT\r\nEND:VCALENDAR\r\n",
     b"BEGIN:VCALENDAR\r\nBEGIN:VEVENT\r\nEND:VCALENDAR\r\n",
+    # forbidden control characters below the first level of components
+    b"BEGIN:VCALENDAR\r\nVERSION:2.0\r\nPRODID:x\r\nBEGIN:VEVENT\r\nUID:c3\r\nSUMMARY:ok\r\nBEGIN:VALARM\r\nACTION:DISPLAY\r\nTRIGGER:-PT5M\r\nDESCRIPTION:a\x0cb\r\nEND:VALARM\r\nEND:VEVENT\r\nEND:VCALENDAR\r\n",
+    b"BEGIN:VCALENDAR\r\nVERSION:2.0\r\nPRODID:x\r\nBEGIN:VTIMEZONE\r\nTZID:X/Y\r\nBEGIN:STANDARD\r\nDTSTART:19701025T030000\r\nTZOFFSETFROM:+0200\r\nTZOFFSETTO:+0100\r\nTZNAME:C\x01T\r\nEND:STANDARD\r\nEND:VTIMEZONE\r\nBEGIN:VEVENT\r\nUID:c4\r\nSUMMARY:ok\r\nEND:VEVENT\r\nEND:VCALENDAR\r\n",
+    b"BEGIN:VCALENDAR\r\nVERSION:2.0\r\nPRODID:x\r\nBEGIN:VTODO\r\nUID:c5\r\nSUMMARY:fine\r\nEND:VTODO\r\nBEGIN:VEVENT\r\nUID:c5\r\nLOCATION:a\x01b\r\nEND:VEVENT\r\nEND:VCALENDAR\r\n",
     b"\x00\xff\xfe garbage",
 ]
 INVALID_VCARD = [
